@@ -25,6 +25,13 @@ CHECKS = {
         A_NOTE,
         "DESIGN.md section 3 (engine A) and section 4, C02",
     ),
+    "C10": (
+        "fault_enumeration",
+        "exhaustive enumeration of memory limits (every prefix of publications kept in RAM plus off-by-one around each threshold) x slot kind x payload kind x step pair, each executed through the real Composition and compared differentially with the unlimited run; directory listing observed around every update",
+        "Every memory limit that changes which publications are kept in RAM is enumerated for every buffering slot kind and payload kind; the consumer's complete series must equal the unlimited run and the spill directory must be the only place files appear and be empty after run().",
+        "Trusted: the unlimited run as reference (its correctness is C08/C11/C12's business); os.walk listings; horizon 6 h (quick) / 9 h (thorough).",
+        "DESIGN.md section 4, C10",
+    ),
     "C14": (
         "exploration",
         "bounded-exhaustive enumeration of all grid layouts and of all read/copy/set-location operation sequences up to depth 3/4 against coordinate arithmetic and a freshly built grid",
